@@ -215,7 +215,9 @@ theorem cmd_safe (st : DecState) (segs : List Seg) (peek : Bool) :
 example : (decodeCommand { curr := 2 } [(0, [9, 9]), (0, [0x68, 0, 7])] false).writes = [(0, 2), (1, 2)] ∧
     (decodeCommand { curr := 3 } [(0, [0x61, 0])] false).writes = [(1, 3)] := by decide
 
-/-- the size query (`source == NULL`, `sourcelen != 0`) changes nothing (there is no storage argument) -/
+/-- the size query (`source == NULL`, `sourcelen != 0`) changes nothing (there is no storage argument); the
+    model returns the state unchanged in that branch, so this restates the definition — the tie to the code
+    is the `dec size n` op of the run -/
 theorem query_pure (v : Variant) (st : DecState) (n : Nat) (h : n ≠ 0) : (decodeQuery v st n).2 = st := by
   simp [decodeQuery, h]
 
